@@ -7,7 +7,7 @@ CONSTANTS
   DtDen = 4
   Spots = {1,4}
   Vars = {1,4}
-  Spots2 = {1,3}
+  Spots2 = {1}
   Configs <- PairCombos2
   EmitMod = 29
   EmitRes = 0
